@@ -551,6 +551,21 @@ def dispatch(eng, st, body, callee, args):
     if Tr == "Clone" and meth == "clone":
         v = eng.deref_all(st, args[0]) if isinstance(args[0], Ptr) else args[0]
         return _o(st, v)
+    if T == "Ordering" and meth in ("then_with", "then", "reverse", "is_eq", "is_ne", "is_lt", "is_gt", "is_le", "is_ge"):
+        a = eng.deref_all(st, args[0])
+        if isinstance(a, Enum) and a.ty == "Ordering":
+            if meth == "then_with":
+                return _o(st, a) if a.variant != 1 else eng.call_closure(st, args[1], [])
+            if meth == "then":
+                return _o(st, a if a.variant != 1 else eng.deref_all(st, args[1]))
+            if meth == "reverse":
+                return _o(st, Enum("Ordering", 2 - a.variant, ()))
+            return _o(st, {"is_eq": a.variant == 1, "is_ne": a.variant != 1, "is_lt": a.variant == 0, "is_gt": a.variant == 2, "is_le": a.variant != 2, "is_ge": a.variant != 0}[meth])
+    # ---- BinaryHeap: a bag; pop selects the maximum by executing the element type's own Ord::cmp (branching on symbolic comparisons)
+    if T == "BinaryHeap":
+        r = binaryheap_ops(eng, st, meth, args, callee)
+        if r is not None:
+            return r
     # ---- HashSet of concrete keys
     if T == "HashSet" or (Tr == "FromIterator" and "HashSet" in callee):
         r = hashset_ops(eng, st, Tr, meth, args)
@@ -933,6 +948,60 @@ def hashmap_ops(eng, st, meth, args):
                 return _o(st, Enum("Option", 1, [it.fields[1]]))
         eng.store_ptr(st, q, Struct("HashMap", [Seq(items + (Struct("()", [k, v]),))]))
         return _o(st, Enum("Option", 0, ()))
+    return None
+
+
+def binaryheap_ops(eng, st, meth, args, callee):
+    from engine import Outcome
+    if meth in ("new", "with_capacity", "default"):
+        return _o(st, Struct("BinaryHeap", [Seq(())]))
+    a = eng.deref_all(st, args[0])
+    if not (isinstance(a, Struct) and a.ty == "BinaryHeap"):
+        return None
+    items = tuple(a.fields[0].elems)
+    if meth == "len":
+        return _o(st, len(items))
+    if meth == "is_empty":
+        return _o(st, len(items) == 0)
+    if meth == "push":
+        eng.store_ptr(st, args[0], Struct("BinaryHeap", [Seq(items + (args[1],))]))
+        return _o(st, UNIT)
+    if meth == "clear":
+        eng.store_ptr(st, args[0], Struct("BinaryHeap", [Seq(())]))
+        return _o(st, UNIT)
+    if meth in ("pop", "peek"):
+        if not items:
+            return _o(st, Enum("Option", 0, ()))
+        ety = re.search(r"BinaryHeap::<\s*([^<>]*?)\s*(?:<.*>)?>::", callee)
+        tname = items[0].ty if isinstance(items[0], (Struct, Enum)) else (ety.group(1).split("::")[-1] if ety else None)
+        nm = eng.mir.resolve(f"<{tname} as Ord>::cmp") if tname else None
+        if nm is None:
+            raise Unsupported(f"BinaryHeap::{meth}: no Ord::cmp body for {tname}")
+        body = eng.mir.bodies[nm]
+        # tournament: (state, index of the best so far); every comparison may fork the path
+        front = [(st, 0)]
+        for j in range(1, len(items)):
+            nxt = []
+            for (s, best) in front:
+                pa, pb = eng.heap_alloc(s, items[best]), eng.heap_alloc(s, items[j])
+                for o in eng.exec_body(s, body, [pa, pb]):
+                    if o.kind != "ret":
+                        return [o]
+                    v = o.val
+                    if not (isinstance(v, Enum) and v.ty == "Ordering"):
+                        raise Unsupported("BinaryHeap: symbolic Ordering")
+                    # cmp(best, j) == Less -> j is larger
+                    nxt.append((o.st, j if v.variant == 0 else best))
+            front = nxt
+        outs = []
+        for (s, best) in front:
+            if meth == "pop":
+                rest = items[:best] + items[best + 1:]
+                eng.store_ptr(s, args[0], Struct("BinaryHeap", [Seq(rest)]))
+                outs.append(Outcome(s, "ret", Enum("Option", 1, [items[best]])))
+            else:
+                outs.append(Outcome(s, "ret", Enum("Option", 1, [eng.heap_alloc(s, items[best])])))
+        return outs
     return None
 
 
